@@ -112,6 +112,17 @@ def proof_obligations(prop):
                 log=(r.stdout + r.stderr)[-2000:], file=vfile)
 
 
+def coqchk(prop):
+    """thorough tier: re-check the property's compiled file (and everything it depends on) with the independent checker;
+    returns dict(ok, axioms, summary)"""
+    r = subprocess.run(['coqchk', '-silent', '-o'] + COQFLAGS + ['PS.props.' + prop], cwd=COQ, capture_output=True, text=True, timeout=3000)
+    txt = r.stdout + r.stderr
+    m = re.search(r'\* Axioms:(.*?)\n\s*\n', txt, re.S)
+    axioms = re.sub(r'\s+', ' ', m.group(1)).strip() if m else 'NOT REPORTED'
+    bad = [k for k in ('type-in-type', 'unsafe (co)fixpoints', 'positivity is assumed') if re.search(re.escape(k) + r': (?!<none>)', txt)]
+    return dict(ok=(r.returncode == 0 and not bad), axioms=axioms, unsafe=bad, summary=txt[-800:])
+
+
 STDLIB_AXIOMS_OK = ()   # none needed so far; any axiom printed is reported verbatim in trusted_base
 
 
